@@ -253,3 +253,30 @@ def only_for_empty_graph(fn: ast.AST, target: ast.AST, gnames) -> Optional[ast.e
             return n.test
     return None
 
+
+def record_classes(ctx, *modules) -> dict:
+    """name -> namedtuple class, for the NamedTuple classes of these modules (for concrete.PathEval.record_classes)"""
+    from ..concrete import record_class_of
+    out = {}
+    for m in modules:
+        for ci in m.classes.values():
+            rc = record_class_of(ci.node)
+            if rc is not None:
+                out[ci.name] = rc
+    return out
+
+
+def record_methods(ctx, consts_of, *modules) -> dict:
+    """'Class.method' -> (function node, constants) for the class / static methods of the NamedTuple classes of these
+    modules (for concrete.PathEval.calls)"""
+    from ..concrete import record_class_of
+    out = {}
+    for m in modules:
+        for ci in m.classes.values():
+            if record_class_of(ci.node) is None:
+                continue
+            for name, fi in ci.methods.items():
+                if any(norm(d) in ("classmethod", "staticmethod") for d in fi.node.decorator_list):
+                    out[f"{ci.name}.{name}"] = (fi.node, consts_of(fi))
+    return out
+
